@@ -359,13 +359,17 @@ class Gen:
             if "Ch" not in sp.children and rnd.random() < 0.6 and not sp.mro()[1:]:
                 cp = None
                 if self.f["itemspaces"] and rnd.random() < (0.6 if sp.params is not None else 0.25):
-                    cp = self.gen_params(["n"])
+                    # (now and then named like the first parameter of an enclosing parametrised space: inside the
+                    # nested instance the name then denotes the inner argument)
+                    outer = sp.all_params()
+                    cp = self.gen_params([outer[0] if outer and rnd.random() < 0.35 else "n"])
                 c = self.space("Ch", sp, params=cp)
                 self.fill(c, CHILD_POOL, depth=1)
         elif depth == 1 and "Gc" not in sp.children and not sp.bases and rnd.random() < 0.3:
             cp = None
             if self.f["itemspaces"] and rnd.random() < (0.5 if sp.params is not None else 0.25):
-                cp = self.gen_params(["z"])
+                outer = sp.all_params()
+                cp = self.gen_params([outer[0] if outer and rnd.random() < 0.35 else "z"])
             c = self.space("Gc", sp, params=cp)
             self.fill(c, CHILD_POOL[:4], depth=2)
         # -- cells
@@ -556,6 +560,16 @@ class Gen:
                 for n, k in ch.vis_refs().items():
                     if k == "int":
                         out.append("%s.%s" % (cn, n))
+            elif all(isinstance(d, int) or d is None for _, d in ch.params):
+                # a parameter of an instance read as its attribute: Ch[p].n (and Ch[p].p when the names coincide)
+                for t in self.item_texts(cn, ch, cx):
+                    out.append("%s.%s" % (t, ch.params[0][0]))
+                pn = ch.params[0][0]
+                if pn in sp.all_params() and pn not in cx.hidden and pn not in cx.scope_vars \
+                        and (len(ch.params) == 1 or ch.params[1][1] is not None):
+                    # the same name as a global inside the object expression and as the attribute read from it
+                    out.append("%s[%s].%s" % (cn, pn, pn))
+                    out.append("%s(%s + 1).%s" % (cn, pn, pn))
         for n, k in sp.vis_refs().items():
             if k.startswith("space:"):
                 t = self.get(k[6:])
